@@ -57,10 +57,24 @@ def compare(ctx, sig, case, res, out, nmodes_out, tol=1e-9):
     phys, logical, dist = float(un_q(out[0])), float(un_q(out[1])), {tuple(e[0]): float(un_q(e[1])) for e in out[2]}
     rp, rl = float(res["physical_perf"]), float(res["logical_perf"])
     rd = {tuple(k): float(v) for k, v in res["results"].items()}
-    if abs(rp - phys) > tol:
+    rel = tol is None
+    if rel:
+        # default precision: input states under 1e-6 of the most likely state that can pass are dropped
+        tol = 1e-9
+    if abs(rp - phys) > (tol if not rel else 1e-3 * phys + 1e-12):
         ctx.fail(sig + "-physical_perf", "physical performance differs from P(filter passes)", case, phys, rp)
         return False
-    if phys > 0 and abs(rl - logical) > tol and not (len(dist) == 0 and len(rd) == 0 and abs(rl) < tol):
+    if rel:
+        tol = 1e-3
+        if phys <= 0:
+            return True        # nothing passes the filter: the conditional quantities are undefined
+        if logical > 1e-6 and not rd:
+            ctx.fail(sig + "-empty", "no result although the retained probability is not negligible", case, logical, rl)
+            return False
+        if abs(rl - logical) > 1e-3 * logical + 1e-9:
+            ctx.fail(sig + "-logical_perf", "logical performance differs by more than the precision allows", case, logical, rl)
+            return False
+    if not rel and phys > 0 and abs(rl - logical) > tol and not (len(dist) == 0 and len(rd) == 0 and abs(rl) < tol):
         ctx.fail(sig + "-logical_perf", "logical performance differs from P(heralds and post-selection | filter)", case, logical, rl)
         return False
     keys = set(k for k, v in dist.items() if v > 1e-12) | set(k for k, v in rd.items() if v > 1e-12)
@@ -119,12 +133,35 @@ def run(ctx):
             thr_modes = []
         reconf = r.choice([None, None, "clear_ps", "new_ps", "filter"]) if level_ok(r) else None
         level = r.choice(["processor", "processor", "simulator"])
-        backend = r.choice(["SLOS", "Naive"])
+        backend = r.choice(["SLOS", "Naive", "SLAP"])
+        prec = 0
+        if r.chance(1, 4) and sum(inp) >= 2 and nh >= 1:
+            # an engine that restricts its output space (mask) serving a lossy, partly distinguishable source: the input
+            # mixture then holds states of several photon numbers and the herald mask is re-derived for each of them
+            backend = r.choice(["Naive", "SLAP"])
+            heralds[hmodes[0]] = 1
+            noise = dict(brightness=r.choice([1.0, 0.9]), g2=0.0, indistinguishability=r.choice([0.92, 0.75]),
+                         transmittance=r.choice([0.8, 0.6]))
+            flt = r.rint(0, sum(inp) - 1)
+            det = "none"
+            thr_modes = []
+        elif r.chance(1, 6) and sum(inp) >= 2:
+            # default precision with a very weak source and a filter asking for every photon: the states that can pass
+            # are far less likely than the ones the filter rejects (trimming must be relative to what can pass)
+            # per-photon probability e with e^n between 1e-9 and 1e-6 (under the default relative precision
+            # of the all-vacuum state, far above the absolute floor min_p = 1e-16)
+            e = r.choice([0.0002, 0.0005, 0.001] if sum(inp) == 2 else [0.002, 0.005, 0.01])
+            br = r.choice([0.05, 0.1])
+            noise = dict(brightness=br, g2=0.0, indistinguishability=r.choice([1.0, 0.9]), transmittance=e / br)
+            flt = sum(inp)
+            prec = None          # the library's default
+            level = "processor"
+            reconf = None
         keep = r.chance(1, 2) if level == "simulator" else False
         if level != "processor":
             reconf = None
         cases.append(dict(circ=c, m=m, heralds=heralds, free=free, inp=inp, flt=flt, ps_tree=ps_tree, ps_str=ps_str,
-                          noise=noise, det=det, thr=thr_modes, level=level, backend=backend, keep=keep, reconf=reconf,
+                          noise=noise, det=det, thr=thr_modes, level=level, backend=backend, keep=keep, reconf=reconf, prec=prec,
                           ps2=rand_ps(r, len(free)), flt2=r.rint(0, sum(inp) + 1)))
 
     # run the implementation first (it also provides the input mixture), then the model in one batch
@@ -157,7 +194,8 @@ def run(ctx):
             F = cs["flt"] + sum(heralds.values())
             desc["postselect"] = ps_str_abs
             if cs["level"] == "processor":
-                res = p.probs(precision=0)
+                res = p.probs(precision=0) if cs["prec"] == 0 else p.probs()
+                desc["precision"] = "0" if cs["prec"] == 0 else "default"
                 keep = False
             else:
                 sim = Simulator(p.backend)
@@ -219,7 +257,10 @@ def run(ctx):
         if cs.get("reconf_done"):
             sig += "-after-" + cs["reconf_done"]
             ctx.count("reconfigured." + cs["reconf_done"])
-        compare(ctx, sig, desc, res, out, nm)
+        if cs["prec"] is None:
+            sig += "-default-precision"
+            ctx.count("default-precision")
+        compare(ctx, sig, desc, res, out, nm, tol=1e-9 if cs["prec"] == 0 else None)
     ctx.streams["conditioning"] = len(cases)
 
     sample = reqs[:2]
